@@ -11,7 +11,10 @@ ToSet(q) == {q[x] : x \in DOMAIN q}
 Check(t) ==
   LET cs == Cases[t]
       g == cs.g
-      bad == {n \in DOMAIN cs.streams : Canonical(g, n) # cs.streams[n]}
+      (* after sealing from a root: what is hashed again follows the same rules given what is sealed now *)
+      SealedCache(r) == [sealed |-> [m \in Nodes(g) |-> m \in ToSet(cs.sealed[r])], rawc |-> [m \in Nodes(g) |-> <<>>]]
+      badafter == UNION {{n \in DOMAIN cs.sstreams[r] : RawTop(g, SealedCache(r), n).s # cs.sstreams[r][n]} : r \in DOMAIN cs.sstreams}
+      bad == {n \in DOMAIN cs.streams : Canonical(g, n) # cs.streams[n]} \cup badafter
       badloops == {n \in DOMAIN cs.loops : RawTop(g, NoCache(g), n).loops # cs.loops[n]}
       badpre == {n \in DOMAIN cs.pre : PreSet(g, n) # ToSet(cs.pre[n])}
       (* sealing a root seals everything reachable from it (C14) *)
